@@ -200,7 +200,7 @@ func (r *Runner) Run(sc *Scenario) (err error) {
 			return fmt.Errorf("seed %s %v: code %d", resKey, obj["metadata"], code)
 		}
 	}
-	r.Trace.Emit(Obj{"ev": "Reset", "cfg": sc.Cfg, "objs": r.srv.Dump(), "fam": sc.Fam})
+	r.Trace.Emit(Obj{"ev": "Reset", "cfg": sc.Cfg, "objs": r.srv.Dump(), "fam": sc.Fam, "expect": sc.Expect})
 	r.srv.Hold()
 	defer r.teardown()
 
